@@ -550,6 +550,6 @@ func init() {
 		ProbeNames:   []string{"full-stack-block-served", "full-stack-terminal:completed", "full-stack-terminal:value:Block Aborted", "two-successful-downloads-of-one-block", "two-successful-downloads-with-another-request-queued", "terminal:completed", "terminal:value:Block Aborted", "abort-acknowledged", "abort-and-shutdown-same-instant", "two-actions-same-instant", "handler-start-and-shutdown-same-instant", "run-with-stalled-goroutines"},
 		Run:          runC16,
 		QuickSeconds: 20, ThoroughSeconds: 700, MinRuns: 300, BatchSize: 25, RunTimeoutSeconds: 300,
-		FQuickSeconds: 15, FThoroughSeconds: 500,
+		FQuickSeconds: 15, FThoroughSeconds: 500, MemLimitMB: 3072,
 	})
 }
